@@ -41,6 +41,8 @@ def erase : Store → Key → Store
 def put (s : Store) (k : Key) (e : Nat) : Store := (k, e) :: erase s k
 /-- `ttl <= 0` ⇒ never expires. -/
 def expiry (now ttl : Nat) : Nat := if ttl = 0 then 0 else now + ttl
+/-- `CleanupExpired`: the expiry GC drops every entry of a key that is not live (one atomic pass). -/
+def sweep (s : Store) (now : Nat) : Store := s.filter (fun p => live s now p.1)
 
 /-! ## Candidates (utils/random) -/
 
@@ -59,6 +61,7 @@ inductive Op where
   | gen (kind : Nat) (cands : Nat → Nat)   -- Generate / AllocateNodeID; `cands a` = candidate of attempt `a`
   | rel (kind id : Nat)                     -- Release(id)
   | relOwn                                  -- Release of the id this thread obtained last (NodeIDAllocator.Release)
+  | sweep                                   -- Storage.CleanupExpired (expiry GC pass over the claim store)
   | renewOwn                                -- NodeIDAllocator.renewNodeID (heartbeat) for the id obtained last
 
 inductive PC where
@@ -81,6 +84,7 @@ inductive Ev where
   | rnw (tid kind id : Nat)
   | nop (tid : Nat)
   | dead (tid kind id : Nat)                -- the heartbeat tick of holder `tid` found no heartbeat running: nothing renewed
+  | swp (tid : Nat)                         -- a CleanupExpired pass completed
   | err (tid : Nat)                         -- the call returned a (storage) error to its caller
   | tick (dt : Nat)
 deriving DecidableEq, Repr
@@ -133,6 +137,10 @@ def stepThread (P : Params) (c : Cfg) (tid : Nat) : Cfg :=
     { c with store := erase c.store (kind, id),
              threads := upd c.threads tid (finishOp (c.threads tid)),
              trace := c.trace ++ [.rel tid kind id] }
+  | .sweep :: _ =>
+    { c with store := sweep c.store c.now,
+             threads := upd c.threads tid (finishOp (c.threads tid)),
+             trace := c.trace ++ [.swp tid] }
   | .relOwn :: _ =>
     match (c.threads tid).own with
     | none => { c with threads := upd c.threads tid (finishOp (c.threads tid)), trace := c.trace ++ [.nop tid] }
@@ -179,6 +187,8 @@ def stepFault (P : Params) (c : Cfg) (tid : Nat) : Cfg :=
   match (c.threads tid).ops with
   | [] => c
   | .rel _ _ :: _ =>
+    { c with threads := upd c.threads tid (finishOp (c.threads tid)), trace := c.trace ++ [.err tid] }
+  | .sweep :: _ =>
     { c with threads := upd c.threads tid (finishOp (c.threads tid)), trace := c.trace ++ [.err tid] }
   | .relOwn :: _ =>
     match (c.threads tid).own with
